@@ -1,4 +1,5 @@
 """C18 hexascii / base64 codecs."""
+from irlib import demangle1
 from common import *
 from irlib import UNROLL_PASSES, UNROLL_ARGS, V, demangle
 from gf2 import BV, BlockEval, ONE
@@ -200,6 +201,70 @@ def b64_encode_rule(rep, mod):
                                       ['^'.join(sorted(x)) or '0' for x in w[:8]]))
 
 
+def index_width_rule(rep, mod, rule='R-INDEXWIDTH'):
+    """every loop-carried counter that (after extension) indexes a string or buffer in the base64 routines is at least
+    32 bits wide: an 8- or 16-bit position wraps after 256 / 65536 symbols while the remaining-length counter keeps
+    running, so longer inputs are re-read from the start (necessary for decoding/encoding texts of every length)"""
+    n = 0
+    for f in mod.defined():
+        if 'base64' not in f.qualname:
+            continue
+        for L in f.loops:
+            for ph in [i for i in L['header'].insts if i.op == 'phi' and i.ty.get('k') == 'int']:
+                # does the phi, through extensions / small constant arithmetic, feed an address or an index argument?
+                work, seen, used_as_index = [ph], set(), None
+                while work and used_as_index is None:
+                    x = work.pop()
+                    if x.id in seen:
+                        continue
+                    seen.add(x.id)
+                    for u in f.users(x):
+                        if u.op in ('zext', 'sext'):
+                            work.append(u)
+                        elif u.op == 'getelementptr' and any(o.k == 'inst' and o.id == x.id for o in u.ops[1:]):
+                            if trace_const(f, u.ops[0])[0].k == 'arg':      # the caller's data, not a local scratch array
+                                used_as_index = u
+                        elif u.op in ('call', 'invoke') and u.callee and ('operator[]' in demangle1(u.callee) or '::at(' in demangle1(u.callee)):
+                            if trace_const(f, u.ops[0])[0].k == 'arg':
+                                used_as_index = u
+                if used_as_index is None:
+                    continue
+                # only counters that are incremented (positions), not the fixed 0..3 / 0..2 group counters
+                steps = []
+                for (bb, v) in ph.incoming:
+                    g = f.inst_of(v)
+                    if f.bmap[bb] in L['blocks'] and g is not None and g.op == 'add':
+                        steps.append(g)
+                if not steps:
+                    continue
+                bounded = False
+                fam = set([ph.id] + [s_.id for s_ in steps])
+                grow = True
+                while grow:
+                    grow = False
+                    for x in list(fam):
+                        for u in f.users(f.insts[x]):
+                            if u.op in ('zext', 'sext', 'trunc') and u.id not in fam:
+                                fam.add(u.id)
+                                grow = True
+                for c in f.all_insts():
+                    # a counter compared with a small constant (i == 4, j < 3) is a group counter, reset inside the loop
+                    if c.op == 'icmp' and any(o.k == 'inst' and o.id in fam for o in c.ops) \
+                            and any(o.k == 'ci' and 0 <= o.ival <= 8 for o in c.ops):
+                        bounded = True
+                if bounded:
+                    continue
+                n += 1
+                ok = ph.bits >= 32
+                rep.inst(rule, f.qualname.split('(')[0], 'position-counter-%s-is-wide-enough' % (ph.name or 'phi'), ok,
+                         ph.where(), None if ok else 'the position %s that indexes the text is only %d bits wide: it wraps '
+                         'after %d symbols while the loop keeps running on the remaining length, so longer inputs are '
+                         're-read from the start' % (ph.name or 'counter', ph.bits, 1 << ph.bits),
+                         fact={'bits': ph.bits})
+    if n == 0:
+        raise AnalysisBroken('R-INDEXWIDTH: no position counter found in the base64 routines (anchor changed)')
+
+
 def b64_decode_rule(rep, mod):
     fs = [f for f in mod.defined() if f.srcname == 'base64_decode']
     if len(fs) != 1:
@@ -371,13 +436,16 @@ def run(rep, repo, tier):
         'hexascii_encode': FnSpec(pre=['size >= 0', 'size <= 1073741824'], extents={'indata': 'size', 'out': '2 * size'}),
         'hexascii_decode': FnSpec(pre=['size <= 1073741824'], extents={'indata': 'size', 'out': 'size'}),
     })
-    modb = compile_ir(repo + '/igris/util/base64.cpp', repo, passes=UNROLL_PASSES, opt_args=UNROLL_ARGS)
+    from irlib import keep_all_but_new_helpers
+    modb = compile_ir(repo + '/igris/util/base64.cpp', repo, passes=UNROLL_PASSES, opt_args=UNROLL_ARGS,
+                      inline=keep_all_but_new_helpers(('is_base64',)))
     rep.units.append('igris/util/base64.cpp (unrolled)')
     alphabet_rule(rep, modb)
     b64_encode_rule(rep, modb)
     b64_decode_rule(rep, modb)
-    modbp = compile_ir(repo + '/igris/util/base64.cpp', repo)
+    modbp = compile_ir(repo + '/igris/util/base64.cpp', repo, inline=keep_all_but_new_helpers(('is_base64',)))
     url_rule(rep, modbp)
+    index_width_rule(rep, modbp)
     rep.floor('R-HEXDIGIT:post', 12)
     rep.floor('R-LANES', 30)
     rep.floor('R-HEXBUF:bounds', 4)
